@@ -65,6 +65,32 @@ def run(ck, w):
     else:
         ck.fail(o, "blockdir::BlockDir::contains", "present set plumbing changed", "open fills exists from list_blocks=%s; contains reads exists=%s" % (okk, recv_ok))
 
+    o = ck.ob("C14.1d", "store_or_deduplicate: every Ok return after a write has recorded the hash in the present set (the same content later in "
+                        "this run is then deduplicated, whatever its size)")
+    ins = [e for e in sd.events if e.bb in sd.live and re.search(r"HashSet::<T, S, A>::insert$", e.name)]
+    ins = [e for e in ins if any(x[0] in ("param", "upvar") and "exists" in x[2] for x in
+                                 flow.origins_x(lib, sd, e.args[0], through_calls=[r"RwLock::<T>::write$", r"RwLockWriteGuard.*deref_mut$", r"Result::<T, E>::unwrap$"]))]
+    wr_edges = set()
+    for e in events_of(lib, sd, "transport::Transport::write"):
+        ed, _ = flow.success_edges(sd, e, "ok")
+        wr_edges |= ed
+    ok_rets = [bb for bb, j, s_ in rules.agg_sites(sd, "std::result::Result", "Ok") if s_["pl"]["l"] == 0]
+    if not ins:
+        ck.fail(o, sd.name, "present set never updated", "store_or_deduplicate does not insert into exists")
+    elif not wr_edges or not ok_rets:
+        ck.fail(o, sd.name, "anchor-missing", "no checked write or no Ok return")
+    else:
+        # Ok returns reachable over a successful write but around every exists.insert
+        bad_ = []
+        for (u, v) in wr_edges:
+            around = sd.reachable(v, removed_nodes={e.bb for e in ins})
+            bad_ += [r for r in ok_rets if r in around]
+        if bad_:
+            ck.fail(o, sd.name, "Ok after a write without recording the block as present",
+                    "a stored block can be returned without exists.insert: identical content later in the run is written again", "%s:bb%d" % (sd.file, bad_[0]))
+        else:
+            ck.ok(o, sites=[ins[0].site()])
+
     # ---- 2. unchanged path does no content I/O -----------------------------------------------------
     common.reuse_guarded(ck, w, "C14.2a")
     cfb, sites = common.reuse_sites(w)
